@@ -139,7 +139,7 @@ func c15Round(r *Run, idx int) {
 			continue
 		}
 		if !bar.settle(a) {
-			r.Inconclusive(1)
+			c15Unsettled(r, a, label)
 			return
 		}
 		barriers++
@@ -203,7 +203,7 @@ func c15Round(r *Run, idx int) {
 			return
 		}
 		if !bar.settle(a) { // the probes promoted entries and caused further evictions
-			r.Inconclusive(1)
+			c15Unsettled(r, a, label)
 			return
 		}
 	}
@@ -414,7 +414,7 @@ func lifeScript(r *Run, idx int, prop string) {
 			a.wait()
 			if !bar.demote(a, k) {
 				step("forced eviction of %d did not settle", k)
-				r.Inconclusive(1)
+				c15Unsettled(r, a, fmt.Sprintf("life script %d (%s), steps %v", idx, kind, steps))
 				return
 			}
 			cur.demoted = true
@@ -546,6 +546,26 @@ func c15OverwriteDuringHandoff(r *Run, idx int) {
 			kind, k, v1, k, v2, early, v, ok, gerr, ran, secHas(a, k)), map[string]any{"cache": kind, "secondary_log": tailLog(a.sec.log(), 8)})
 	}
 	r.Distinct("overwrite-during-handoff/" + kind)
+}
+
+// c15Unsettled is called when the hand-off barrier never settles (writes applied, yet enqueued != processed after
+// the generous bound). That alone is inconclusive - unless the goroutine dump shows why: the cache is open and fewer
+// hand-off workers exist than it was built with (workers of caches closed earlier can only add to the count, never
+// lower it), so what is waiting in the queue will never be written.
+func c15Unsettled(r *Run, a *anyCache, label string) {
+	_, all := dumpPair(100 * time.Millisecond)
+	n := 0
+	for _, g := range all {
+		if g.has(").processSecondary(") {
+			n++
+		}
+	}
+	if !dumpBlind.Load() && n < a.workers {
+		r.Violate("handoff-never-processed/worker-goroutine-exited", fmt.Sprintf("%s: the hand-off barrier never settled (%d entries waiting in the hand-off queue, cache open) and only %d of the %d hand-off workers the cache was built with still exist", label, a.store().VerifSecQueueLen(), n, a.workers),
+			map[string]any{"workers_configured": a.workers, "workers_alive": n, "handoff_queue_len": a.store().VerifSecQueueLen()})
+		return
+	}
+	r.Inconclusive(1)
 }
 
 func secHas(a *anyCache, k int) string {
